@@ -20,8 +20,8 @@ CLAIMS = {
  "C10": ("Bounded model checking of every measurement <-> variation conversion pair found in app/gen/conversion.rs (69 pairs): measurement (all value bit patterns, flags, time) -> variation -> wire bytes -> variation -> measurement, with capability table from the standard: saturation + OVER_RANGE, low 16 bits for counters, state bits in flags, time carried exactly, nothing wrapped or sign-flipped.",
          "Static/event writers' header logic (promote, CTO grouping) and the master's extraction loop are not composed into these queries.",
          "DESIGN.md §5 C10"),
- "C11": ("THIN. Bounded model checking of the static-data response writer (RangeWriter) only: points written at arbitrary ascending indices are reported once each, in order, contiguous runs sharing a header with a correctly patched stop field, bit-packed values LSB first; a point that does not fit leaves everything before it intact and signals the caller to resume in the next fragment.",
-         "The snapshot clause (selected vs current value), exactly-once across fragments and the resume index are decided in StaticDatabase, whose BTreeMap-backed code did not finish in three 40-minute formulations nor with a single point in 16 GB (attempt-only harnesses c11_snapshot_*, c11_one_point_*); FIR/FIN/CON and the confirm gate are async. None of these is decided: exit 0 says nothing about them.",
+ "C11": ("THIN. Bounded model checking of the static-data response writer (RangeWriter): points written at arbitrary ascending indices are reported once each, in order, contiguous runs sharing a header with a correctly patched stop field, bit-packed values LSB first (ten points, two data bytes); a point that does not fit leaves everything before it intact and signals the caller to resume in the next fragment.  Thorough tier only: the snapshot clause on a real StaticDatabase with ONE binary point - select, later update, write: value, flags and the choice between packed g1v1 and flagged g1v2 all come from the value at selection time, for a requested and for a default packed variation.",
+         "The one-point database harnesses need about 35 GB and 24 minutes each and are therefore thorough-tier; with two or more points (exactly-once across fragments, resume index) the BTreeMap-backed code did not finish in any formulation (attempt-only c11_snapshot_*). FIR/FIN/CON and the confirm gate are async. The quick tier decides the writer only: its exit 0 says nothing about the snapshot clause.",
          "DESIGN.md §5 C11, §12 walls"),
  "C12": ("Bounded model checking of the synchronous response builders on a real OutstationSession: sequence = request's, UNS clear, FIR/FIN, objects exactly as specified and bounded, every object parse error maps to a non-empty IIN2, ENABLE/DISABLE_UNSOLICITED refused when unsolicited reporting is switched off by configuration, restart-bit write semantics, transmit buffers sized from the right configuration field.",
          "The async dispatcher (which functions get no reply, controls, wait states) is outside the claim.  Every handler that walks real object headers of a request on a session (ENABLE/DISABLE with headers, FREEZE, WRITE: 'each header processed, errors OR-ed') exceeded 28 GB and is attempt-only: exit 0 says nothing about those clauses.",
